@@ -887,6 +887,12 @@ package process
 //@ atomicinit NewRuntimeEnvironment InitializeProcesses
 //@ moves (*Process).SpawnThenTransition (*Process).SpawnThenTransitionNP
 //@ owned Process
+// The runtime environment is the one object every process goroutine of a run holds: once goroutines run, its fields are
+// configuration (never written), counters (sync/atomic only), or the time taken, which only the heartbeat receiver writes
+// (read by the driver after the run's context is cancelled - that ordering is not decided here).
+//@ shared RuntimeEnvironment
+//@ atomicinit (*RuntimeEnvironment).InitializeMonitor
+//@ solewriter RuntimeEnvironment.timeTaken (*RuntimeEnvironment).HeartbeatReceiver
 
 // ---------------------------------------------------------------------------------------------
 // C15 for terms: String() of every term former equals the canonical printer ppf, written out from the concrete syntax
